@@ -182,6 +182,36 @@ def rejected_applicant_probe(r, ops, tags):
         reserved_probe(r, ops, tags, T=T, callers=["u0", first, r.choice(["ca1", "ca2"]), first, second])
 
 
+def respelled_booked_account_probe(r, ops, tags):
+    """an outsider applies for a new appchain and names, next to itself, an account that is already the admin of chain c1 —
+    spelled in lower case, not in the checksummed spelling the node uses; then takes the application back (or has it rejected /
+    approved).  Whatever the node makes of that spelling, the records of c1's admin are c1's: nobody else's call may touch them"""
+    T = "c%d" % r.randint(5, 7)
+    who = r.choice(["u0", "ca5"])
+    ops.append(f"block xfer adm0 {who} 100000000000")
+    ops.append("q dump")
+    ops.append(f"block bvm {who} appchain RegisterAppchain s:{T} s:name-{T}-x x: s:ETH x: s:0xbroker s:desc s:{HAPPY_RULE} s:url al:{who},~ca1 s:reason")
+    ops.append("q dump")
+    ops.append(f"q prop @{who}-0")
+    end = r.choice(["withdraw", "withdraw", "reject", "approve"])
+    if end == "withdraw":
+        ops.append("q dump")
+        ops.append(f"block bvm {who} gov WithdrawProposal s:@{who}-0 s:reason")
+        ops.append("q dump")
+    else:
+        for v in ("adm0", "adm1", "adm2"):
+            ops.append("q dump")
+            ops.append(f"block bvm {v} gov Vote s:@{who}-0 s:{end} s:r")
+            ops.append("q dump")
+    ops.append(f"q prop @{who}-0")
+    ops.append(f"q obj role @ca1")
+    # c1's admin still is c1's admin: an operation reserved to it still works for it
+    ops.append("q dump")
+    ops.append("block bvm ca1 appchain UpdateAppchain s:c1 s:name-c1 s:desc-after x: s:@ca1 s:reason")
+    ops.append("q dump")
+    tags.add("respelled-booked-account:" + end)
+
+
 ADMIN_OPS = [
     "appchain FreezeAppchain s:c2 s:reason",
     "appchain ActivateAppchain s:c2 s:reason",
@@ -308,6 +338,8 @@ def gen_c17(rng, n, tier):
             rejected_applicant_probe(r, ops, tags)
         elif k1 < 0.74:
             former_admin_probe(r, ops, tags)
+        elif k1 < 0.84:
+            respelled_booked_account_probe(r, ops, tags)
         ops += ["q ic c1:s1", "q ic c2:s1", "q status 1356:c1:s1-1356:c2:s1-1", "q status 1356:c2:s1-1356:c1:s1-1"]
         hs.append(History(ops, tags=tags))
     return hs
@@ -670,6 +702,38 @@ def rule_update(g, r):
     g.tags.add(f"rule-update:{c}:{ballot}")
 
 
+def logged_out_origin(g, r):
+    """ "against appchains whose rule was … logged out": a request towards chain X is pending, X's admin logs the chain out (approved
+    or rejected), then X answers the request with a receipt and sends a request of its own, each with a well-formed proof: after an
+    approved logout X has no master rule any more, nothing X sends may be accepted"""
+    c = r.choice(["c2", "c4", "c1"])
+    ca = "ca" + c[1]
+    dst = {"c1": "c1:s1", "c2": "c2:s1", "c4": "c4:s1"}[c]
+    src = "c1:s2" if c != "c1" else "c2:s1"
+    sca = "ca" + src[1]
+    ref = f"@{ca}-{PRELUDE_PROPOSALS[ca]}"
+    i = g.next_req.get((src, dst), 1)
+    g.ops.append(f"block ibtp {sca} {src} {dst} {i} req 0 - ok")
+    g.ops.append(f"q status 1356:{src}-1356:{dst}-{i}")
+    g.ops.append(f"block bvm {ca} appchain LogoutAppchain s:{c} s:reason")
+    g.ops.append(f"q prop {ref}")
+    ballot = r.choice(["approve", "approve", "reject"])
+    for v in ["adm0", "adm1", "adm2"]:
+        g.ops.append(f"block bvm {v} gov Vote s:{ref} s:{ballot} s:r")
+    g.ops.append(f"q prop {ref}")
+    g.ops.append(f"q obj appchain {c}")
+    g.ops.append(f"q obj rule {c}")
+    for tx in [f"ibtp {ca} {src} {dst} {i} {r.choice(['ok', 'fail'])} 0 - ok", f"ibtp {ca} {dst} {src} {g.next_req.get((dst, src), 1)} req 0 - ok"]:
+        g.ops.append("q dump")
+        g.ops.append("block " + tx)
+        g.ops.append("q dump")
+    g.ops.append(f"q status 1356:{src}-1356:{dst}-{i}")
+    g.next_req[(src, dst)] = i + 1
+    g.next_rcpt[(src, dst)] = i + 1
+    g.tags.add(f"logged-out-origin:{ballot}")
+    return c
+
+
 def gen_c03(rng, n, tier):
     """IBTP requests and receipts with every proof kind (ok / absent / hash mismatch / plain false) from chains whose rule
     accepts, rejects with an error, or that were never registered; every such single-IBTP block is bracketed by state dumps;
@@ -683,8 +747,13 @@ def gen_c03(rng, n, tier):
         tags = g.tags
         tags.add("c03")
         chains = SERVICES + ["c9:s1", "c1:s9"]
-        if r.random() < 0.2:
+        k0 = r.random()
+        if k0 < 0.2:
             rule_update(g, r)
+        elif k0 < 0.32:
+            for _ in range(r.randint(0, 2)):
+                g.block()
+            logged_out_origin(g, r)
         for _b in range(r.randint(4, 10)):
             k = r.random()
             if k < 0.3:
@@ -720,11 +789,19 @@ def mon_c03(h, obs):
     hits = []
     steps = mon_exec.parse_trace(h, obs)
     master = {}        # chain -> verdict of the master rule as last read back (GetMasterRule), overriding the world's default
+    forbidden = set()  # chains whose logout was approved
     for i, st in enumerate(steps):
+        if st[0] == "q" and st[1] == "obj" and st[2] == "appchain" and len(st[4]) > 3:
+            m = re.search(r"status=(\S+)", st[3] or "")
+            if m and m.group(1) == "forbidden":
+                forbidden.add(st[4][3])        # a logged-out appchain has no master rule: nothing it sends is verified
+            continue
         if st[0] == "q" and st[1] == "obj" and st[2] == "rule" and len(st[4]) > 3:
             m = re.search(r"status=(\S+) addr=(\S+)", st[3])
             if m:
                 master[st[4][3]] = (m.group(2).lower() == RULES["happy"]) and m.group(1) == "available"
+                if st[4][3] in forbidden and m.group(1) == "available":
+                    hits.append(Hit("C03/logged-out-appchain-keeps-its-master-rule", f"appchain {st[4][3]} is logged out (forbidden) but {m.group(2)} is still bound to it as an available master rule: its IBTPs keep passing the proof check", detail=" ".join(st[4])))
             continue
         if st[0] != "block" or not st[1].ok:
             continue
@@ -737,7 +814,7 @@ def mon_c03(h, obs):
                 origin = (tx.frm if tx.typ == "req" else tx.to)
                 parts = origin.split(":")
                 chain = parts[0] if len(parts) == 2 else (parts[1] if len(parts) == 3 and parts[0] == "1356" else None)
-                verified = tx.proof == "ok" and master.get(chain, ORIGIN_OK.get(chain, False)) and tx.typ in ("req", "ok", "fail", "rb")
+                verified = tx.proof == "ok" and chain not in forbidden and master.get(chain, ORIGIN_OK.get(chain, False)) and tx.typ in ("req", "ok", "fail", "rb")
                 if rc.ok and not verified:
                     hits.append(Hit(f"C03/unverified-ibtp-accepted/{tx.proof}", f"tx {j} of block {b.h}: proof={tx.proof} origin={origin} got a successful receipt", detail=b.op))
                 if not verified and j in {v[0] for vs in b.counter.values() for v in vs}:
